@@ -7,6 +7,8 @@ import (
 	"net"
 	"time"
 
+	"github.com/caddyserver/caddy/v2"
+
 	"go.uber.org/zap"
 )
 
@@ -35,13 +37,23 @@ func (s *Server) VerifServe(ln net.Listener) error           { return s.serve(ln
 func (s *Server) VerifServePacket(pc net.PacketConn) error   { return s.servePacket(pc) }
 func (s *Server) VerifHandle(conn net.Conn)                  { s.handle(conn) }
 
-// VerifNewListenerWrapper is ListenerWrapper.Provision without module loading.
-func VerifNewListenerWrapper(routes RouteList, timeout time.Duration, logger *zap.Logger) *ListenerWrapper {
-	lw := &ListenerWrapper{Routes: routes, logger: logger}
+// VerifNewListenerWrapper provisions a ListenerWrapper around in-memory routes.
+// The real Provision runs on an empty route list (so whatever it sets up - logger,
+// context, the hand-over handler at the end of the chain - is the shipped code's
+// business, not mirrored here); the harness routes are then compiled in front of
+// that compiled empty list, which simply passes every connection on to the real
+// hand-over handler.
+func VerifNewListenerWrapper(ctx caddy.Context, routes RouteList, timeout time.Duration, logger *zap.Logger) *ListenerWrapper {
 	if timeout <= 0 {
 		timeout = MatchingTimeoutDefault
 	}
-	lw.compiledRoute = lw.Routes.Compile(lw.logger, timeout, listenerHandler{})
+	lw := &ListenerWrapper{MatchingTimeout: caddy.Duration(timeout)}
+	if err := lw.Provision(ctx); err != nil {
+		panic(err)
+	}
+	lw.logger = logger
+	lw.Routes = routes
+	lw.compiledRoute = routes.Compile(logger, timeout, lw.compiledRoute)
 	return lw
 }
 
